@@ -4,7 +4,7 @@
 From Coq Require Import String List NArith ZArith Bool Lia ZifyN ZifyNat ZifyBool.
 From J5V.lib Require Import Outcome Json JsonPrint Base64 Civil Decimal.
 From J5V.model Require Import CodecTypes CodecEnc CodecEncSpec CodecEncDec.
-From J5V.proofs Require Import CodecEncProofs CodecEncDecProofs.
+From J5V.proofs Require Import CodecEncProofs CodecEncDecProofs CodecEncTotal.
 Import ListNotations.
 Local Open Scope N_scope.
 
@@ -40,17 +40,32 @@ Theorem C01_props_ok_decided : forall env ps, props_ok_b env ps = true -> props_
 Proof. exact props_ok_b_sound. Qed.
 Print Assumptions C01_props_ok_decided.
 
-(* What is not covered (kept visible): encoding of a representable message succeeds (only the
-   conditional form above is proved; the direct oracle checks success on every generated message),
-   and protobuf Any values, which decode only with the WithProtoToAny option. *)
-Definition C01_full_statement : Prop :=
+(* The full statement: encoding a representable message SUCCEEDS (no error, no panic, the model's
+   fuel suffices), the text is one JSON document, and decoding it into a fresh message gives an
+   equivalent message.  The decoder refuses documents nested deeper than 10000 levels (its documented
+   bound, the same as protobuf's own recursion limit), hence the premise on the tree.
+   Not covered: protobuf Any values (they decode only with the WithProtoToAny option). *)
+Theorem C01_full_statement :
   forall fmt_float any_inner parse_float parse_time env,
     oneofs_flat env -> oneof_names_ok env ->
     float_text_ok fmt_float -> float_roundtrip fmt_float parse_float -> time_parse_extends parse_time ->
     inner_ok any_inner ->
     forall root m, rep_root any_inner env root m ->
-      exists txt J m', encode fmt_float any_inner env root m = Ok txt /\ strict_parse txt = Some J /\
-                       decode_tree parse_float parse_time env root J = Ok m' /\ equiv_root any_inner env root m m'.
+      exists txt J, encode fmt_float any_inner env root m = Ok txt /\ strict_parse txt = Some J /\
+        (N.of_nat (jnest J) <= max_nesting ->
+         exists m', decode_tree parse_float parse_time env root J = Ok m' /\ equiv_root any_inner env root m m').
+Proof.
+  intros fmt_float any_inner parse_float parse_time env Hflat Hnames Hfok Hfrt Htime Hinner.
+  exact (codec_full fmt_float any_inner parse_float parse_time env Hflat Hfok Hfrt Htime Hnames Hinner).
+Qed.
+Print Assumptions C01_full_statement.
+Theorem C01_encode_succeeds :
+  forall fmt_float any_inner parse_float parse_time env,
+    oneofs_flat env -> float_text_ok fmt_float -> float_roundtrip fmt_float parse_float ->
+    time_parse_extends parse_time ->
+    forall root m, rep_root any_inner env root m -> exists txt, encode fmt_float any_inner env root m = Ok txt.
+Proof. exact encode_total. Qed.
+Print Assumptions C01_encode_succeeds.
 
 (* every scalar kind, every value of its documented domain: the printer's token is read back by
    the matching arm of scalarReflectFromGo to the same value (decimals: to the normalised text).
